@@ -480,6 +480,13 @@ class SkelEval(Eval):
             if m == 'is_sign_positive':
                 return math.copysign(1, r.value) > 0
             raise Unbound(t)
+        if m == 'scalar' and isinstance(r, V) and r.path.startswith('naga::Literal::') and not args:
+            # naga::Literal::scalar() (pinned naga source, proc/mod.rs)
+            table = {'F64': ('Float', 8), 'F32': ('Float', 4), 'U32': ('Uint', 4), 'I32': ('Sint', 4), 'U64': ('Uint', 8), 'I64': ('Sint', 8), 'Bool': ('Bool', 1),
+                     'AbstractInt': ('AbstractInt', 8), 'AbstractFloat': ('AbstractFloat', 8)}
+            k = table.get(r.path.split('::')[-1])
+            if k:
+                return V('naga::Scalar', kind=V('naga::ScalarKind::' + k[0]), width=k[1])
         if m in ('collect_into_HashSet', 'collect_into_BTreeSet'):
             items = self.iterable(r, recv)
             try:
